@@ -418,3 +418,16 @@ def load_known(prop: str) -> typing.List[dict]:
 def chunks(seq, n):
     for i in range(0, len(seq), n):
         yield seq[i:i + n]
+
+
+def seqify(x):
+    """ToJson renders a TLA+ function over 0..n as an object with string keys: turn those into lists (recursively)."""
+    if isinstance(x, dict):
+        if x and all(k.lstrip("-").isdigit() for k in x):
+            keys = sorted(x, key=int)
+            if [int(k) for k in keys] == list(range(int(keys[0]), int(keys[0]) + len(keys))) and int(keys[0]) == 0:
+                return [seqify(x[k]) for k in keys]
+        return {k: seqify(v) for k, v in x.items()}
+    if isinstance(x, list):
+        return [seqify(v) for v in x]
+    return x
